@@ -3,6 +3,7 @@ from __future__ import annotations
 
 import fcntl
 import os
+import pathlib
 import re
 import subprocess
 import time
@@ -75,7 +76,21 @@ def locate_broken(props_file, broken_at: list[str]) -> list[str]:
     return sorted(set(out))
 
 
-def audit(prop_id: str, modules: list[str]) -> dict:
+def import_closure(modules: list[str], drivers: list[str]) -> list:
+    """all files of this project that the given modules / drivers import, transitively"""
+    todo = [paths.LEAN / (m.replace(".", "/") + ".lean") for m in modules] + [paths.LEAN / "Driver" / f"{d}.lean" for d in drivers]
+    seen = []
+    while todo:
+        f = todo.pop()
+        if f in seen or not f.exists():
+            continue
+        seen.append(f)
+        for m in re.findall(r"^import\s+(VivModel\.\S+)", f.read_text(), re.M):
+            todo.append(paths.LEAN / (m.replace(".", "/") + ".lean"))
+    return seen
+
+
+def audit(prop_id: str, modules: list[str], drivers: list[str] = ()) -> dict:
     """`#print axioms` for every theorem of the property modules + forbidden-token grep."""
     t0 = time.time()
     res = {"ok": True, "theorems": {}, "forbidden": [], "nonstandard": [], "wall_s": 0.0}
@@ -104,8 +119,8 @@ def audit(prop_id: str, modules: list[str]) -> dict:
         elif not set(ax) <= STD_AXIOMS:
             res["ok"] = False
             res["nonstandard"].append(f"{n}: {sorted(set(ax) - STD_AXIOMS)}")
-    # forbidden tokens anywhere in the library or the drivers
-    for f in list((paths.LEAN / "VivModel").rglob("*.lean")) + list((paths.LEAN / "Driver").rglob("*.lean")):
+    # forbidden tokens anywhere in the import closure of the property's modules and of its driver
+    for f in import_closure(modules, drivers):
         src = _strip_comments(f.read_text())
         for m in FORBIDDEN.finditer(src):
             res["forbidden"].append(f"{f.relative_to(paths.LEAN)}: {m.group(0).strip()}")
@@ -143,3 +158,44 @@ class DriverError(Exception):
 def do_translate() -> dict:
     with Lock():
         return translate.translate()
+
+
+def prepare_workspace() -> dict:
+    """Regenerate the tables for the tree under test WITHOUT disturbing concurrent checks.
+
+    * translation equals what lean/VivModel/Gen/Tables.lean already holds -> nothing to do;
+    * differs and the tree under test is /repo itself (it was edited) -> rewrite in place (every concurrent
+      check of the real tree computes the same content);
+    * differs and the tree under test is a scratch copy (mutant self-test) -> work in a private copy of the
+      whole Lean project (incl. its build directory, ~50 MB) which `release_workspace` deletes.
+    """
+    out = {"changed": [], "error": None, "private_workspace": None}
+    try:
+        content = translate.render_tables()
+    except translate.TranslationError as e:
+        out["error"] = str(e)
+        return out
+    target = paths.LEAN / "VivModel" / "Gen" / "Tables.lean"
+    if target.exists() and target.read_text() == content:
+        return out
+    if str(paths.repo()) == "/repo":
+        with Lock():
+            if translate.write_if_changed(target, content):
+                out["changed"].append("lean/VivModel/Gen/Tables.lean")
+        return out
+    import shutil
+    import tempfile
+    d = pathlib.Path(tempfile.mkdtemp(prefix="vlean-"))
+    shutil.copytree(paths.LEAN, d / "lean", symlinks=True, ignore=shutil.ignore_patterns(".build.lock", ".tables.lock"))
+    paths.LEAN = d / "lean"
+    translate.write_if_changed(paths.LEAN / "VivModel" / "Gen" / "Tables.lean", content)
+    out["changed"].append("Gen/Tables.lean (private workspace)")
+    out["private_workspace"] = str(d)
+    return out
+
+
+def release_workspace(tr: dict) -> None:
+    if tr.get("private_workspace"):
+        import shutil
+        shutil.rmtree(tr["private_workspace"], ignore_errors=True)
+        paths.LEAN = paths.VERIF / "lean"
